@@ -307,7 +307,7 @@ fn v5_next_pkid_contract() {
 // ------------------------------------------------------------------------------------------
 // PUBACK
 // ------------------------------------------------------------------------------------------
-// @steps name=v5_puback props=C02,C07,C10,C18 fn=v5::MqttState::handle_incoming_puback call=puback_step ns=quick:1;thorough:1,2,3
+// @steps name=v5_puback props=C02,C07,C10,C18 fn=v5::MqttState::handle_incoming_puback call=puback_step ns=quick:1;thorough:1,2
 fn puback_step(n: usize) {
     let mut st = any_state(n, 0);
     let g = ghost(&st);
@@ -476,7 +476,7 @@ fn pubcomp_step(n: usize) {
 // ------------------------------------------------------------------------------------------
 // outgoing publish
 // ------------------------------------------------------------------------------------------
-// @steps name=v5_outgoing_publish props=C02,C07,C10,C18 fn=v5::MqttState::outgoing_publish call=outgoing_publish_step ns=quick:1,2;thorough:1,2,3,4
+// @steps name=v5_outgoing_publish props=C02,C07,C10,C18 fn=v5::MqttState::outgoing_publish call=outgoing_publish_step ns=quick:1,2;thorough:1,2,3
 fn outgoing_publish_step(n: usize) {
     let mut st = any_state(n, 0);
     let g = ghost(&st);
